@@ -139,14 +139,14 @@ def run(ctx):
     # rounds, control messages arbitrarily late). Oracle: the run returns within the step budget; a hang outside the flush loop /
     # barrier of gvt_msg_drain (stages 1-2 = the known F1 family) is a violation with the configuration as replay.
     from props import runlib
-    pagg = runlib.peer_matrix(ctx, 40, 1000, salt=8)
+    pagg = runlib.peer_matrix(ctx, 40, 400, salt=8)
     if pagg:
         ctx.coverage["two_rank_shutdown(adversarial peer)"] = ctx.coverage.pop("peer_mode")
     # ---- full single-rank runs of GenModel instances (incl. predicates already true at LP_INIT, tiny thresholds, termination
     # times): every run must return within the step budget; a hang that does not carry the F1 signature is a violation
     keep = {k: ctx.coverage.get(k) for k in ("evaluations", "distinct_nontrivial", "rule", "traces_validated_against_impl",
                                               "trace_lines_compared", "totals", "outcomes")}
-    sagg = runlib.run_matrix(ctx, "full runs return (GenModel, scheduled)", 30, 800, oracle_keys=(), threads=(1, 2, 3, 4), tterm=False)
+    sagg = runlib.run_matrix(ctx, "full runs return (GenModel, scheduled)", 30, 300, oracle_keys=(), threads=(1, 2, 3, 4), tterm=False)
     for k, v in keep.items():  # the headline numbers of this check stay those of the lock-step replay
         if v is None:
             ctx.coverage.pop(k, None)
@@ -160,7 +160,7 @@ def run(ctx):
     import concurrent.futures
     rnd = random.Random(ctx.seed * 31 + 5)
     lcfgs = []
-    for i in range(40 if ctx.tier == "quick" else 1000):
+    for i in range(40 if ctx.tier == "quick" else 400):
         c = runlib.gen_configs(ctx, 1)[0]
         c.update({"seed": rnd.randrange(1, 1 << 30), "mseed": rnd.randrange(1, 1 << 30), "live": 1, "threads": rnd.choice([1, 2, 3, 4]),
                   "lps": rnd.choice([2, 3, 4, 6, 8]), "thr": rnd.choice([0, 5, 20, 60]),
